@@ -294,7 +294,14 @@ def main():
         },
         "engines": [{"name": n, "path": f"/verif/spec/{n}.tla", "serves_properties": sorted(p),
                      "kind_free_text": "TLA+ module checked with TLC (exhaustive + trace validation)"}
-                    for n, p in sorted(engines.items())],
+                    for n, p in sorted(engines.items())] +
+                   [{"name": n, "path": f"/verif/spec/{n}.tla", "serves_properties": [],
+                     "kind_free_text": "TLA+ module beyond the listed properties (" + what + "); checked with TLC and bound by trace "
+                                       "validation, reported as NOTE lines of " + host + ", never as a verdict"}
+                    for n, what, host in (("QtlPretty", "PrettyFormatter's thread-index / category-width automaton", "C19"),
+                                          ("QtlUtils", "setMessagePattern / restorePrevious, setFilterRules, time pattern in file names", "C19"),
+                                          ("QtlSignal", "SignalSink: direct and posted slot calls", "C03"),
+                                          ("QtlHttp", "HttpSink: one POST per message", "C18"))],
         "checks": checks,
         "not_applicable": na,
         "notes": "Every claimed property is decided by a TLA+ module under /verif/spec checked with TLC and bound to the "
